@@ -227,6 +227,14 @@ def check_case(case):
                     res.traces += 1
                     res.state(key0 + ((p, q), (p2, q2), (p3, q3)))
                     check_labels(res, y3, w2[v0:v1], 4, bwx, scale, case, dict(sub2, third=[p3, q3]), "third slice")
+    # NumPy integer bounds behave like Python ints
+    for p_, q_ in ((np.int64(0), np.int64(n)), (np.int32(-n), None), (np.int64(n - 1), np.int64(n + 3))):
+        s0, s1, _ = slice(p_, q_).indices(n)
+        if s1 > s0:
+            y = zn[:, p_:q_]
+            res.transitions += 1
+            check_labels(res, y, want[s0:s1], 2, bwx, scale, case, {"range": [repr(p_), repr(q_)]}, "slice")
+            res.hits["numpy integer bounds"] += 1
     # combined time + frequency slices (differential against the time-only slice)
     for (t0, t1, st) in [(None, None, None), (1, None, None), (None, -1, None), (2, 5, None), (-4, None, 1),
                          (None, None, 2), (1, None, 3)]:
